@@ -1,6 +1,7 @@
 package rules
 
 import (
+	"go/types"
 	"fmt"
 	"go/token"
 	"strings"
@@ -16,7 +17,7 @@ func init() {
 			"R10.1 every store to TargetsInfo.Status installs a map made in the same function whose writes are keyed by the Hash of a target of the current assignment; the value is the previous entry exactly when one exists, otherwise NewScrapeStatus(target.Series, target.TotalSeries); new entries start with health unknown; " +
 			"R10.2 the entry's TargetState is stored from the requested target on every iteration; " +
 			"R10.3 who may write ScrapeTimes: only the reset to 0 (C05 R5.4) and the +1 in the proxy's completion (C13 R13.2); " +
-			"R10.4 who may write IdleAt: a non-nil value only under len(Status)==0 ∧ IdleAt==nil, nil only under len(Status)!=0, the idle update runs after the status rebuild in UpdateTargets, and the runtime-info endpoint reports IdleAt unchanged. " +
+			"R10.4 who may write IdleAt: a non-nil value only under len(Status)==0 ∧ IdleAt==nil, nil only under len(Status)!=0, the idle update runs after the status rebuild in UpdateTargets, and the runtime-info endpoint reports IdleAt unchanged in an object built by the reporting call itself (no cached report). " +
 			"Not decided: values over update sequences (a reference-model comparison is a dynamic technique).",
 		Assumptions: []string{"go/types and go/ssa are correct"}})
 }
@@ -361,7 +362,19 @@ func runC10(p *engine.Prog, r *engine.Report) {
 					}
 				}
 			}
-			r.Check(okv, "R10.4-idle-since", fmt.Sprintf("reported idle-since #%d in %s", nRep, engine.FuncName(fn)), "RuntimeInfo.IdleStartAt at "+engine.FuncName(fn)+" ("+p.Rel(st.Pos())+")", "the manager's IdleAt, unchanged", "value "+src)
+			why := "value " + src
+			// what the endpoint hands out is the object filled in this very call, never one kept from an earlier request
+			for _, in2 := range allInstrs(fn) {
+				mi, ok := in2.(*ssa.MakeInterface)
+				if !ok || !types.Identical(mi.X.Type(), fa.X.Type()) {
+					continue
+				}
+				if _, fresh := mi.X.(*ssa.Alloc); !fresh {
+					okv = false
+					why = "a runtime info that was not built in this call is handed out at " + p.Rel(mi.Pos()) + " (" + short(fi.T(mi.X).S) + "): idle-since and load can be those of an earlier moment"
+				}
+			}
+			r.Check(okv, "R10.4-idle-since", fmt.Sprintf("reported idle-since #%d in %s", nRep, engine.FuncName(fn)), "RuntimeInfo.IdleStartAt at "+engine.FuncName(fn)+" ("+p.Rel(st.Pos())+")", "the manager's IdleAt, unchanged, in an object built by the reporting call itself", why)
 		}
 	}
 }
